@@ -60,6 +60,47 @@ def native_check(cfg, env=None, seed=0, scale=1.0):
     return fails
 
 
+def large_regime(cfg, seed=0, scale=10.0):
+    """Parameter magnitudes up to ~30 (the property's range): compared in the log domain with a brute-force log-sum-exp over
+    all hidden configurations, where nothing overflows.  Catches formulations that are equal over the reals but lose
+    all precision (or overflow) for large pre-activations."""
+    import itertools
+    from scipy.special import logsumexp
+    rng = np.random.default_rng(seed)
+    st = C.make_state(cfg["kind"], cfg["nv"], cfg["nh"])
+    C.randomize(st, rng, scale)
+    for net in st.networks:
+        for _n, p in getattr(st, net).named_parameters():
+            p.data.clamp_(-30.0, 30.0)
+    nv, nh = cfg["nv"], cfg["nh"]
+    space = st.generate_hilbert_space(nv)
+    fails = []
+
+    def log_marginal(par):
+        W, b, c = par["weights"], par["visible_bias"], par["hidden_bias"]
+        out = []
+        for v in C.bits(nv):
+            v = np.array(v, dtype=float)
+            th = c + W @ v
+            out.append(b @ v + logsumexp([float(np.dot(h, th)) for h in itertools.product((0.0, 1.0), repeat=nh)]))
+        return np.array(out)
+    lm = log_marginal(C.np_params(st.rbm_am))
+    E = st.rbm_am.effective_energy(space).numpy()
+    if not np.all(np.isfinite(E)) or not np.allclose(-E, lm, rtol=1e-9, atol=1e-9):
+        fails.append(("large parameters: -effective_energy != log of the hidden marginal", float(np.nanmax(np.abs(-E - lm)))))
+    with np.errstate(over="ignore"):
+        lp = np.log(st.probability(space).numpy())
+    ok = np.isfinite(lm) & (lm < 700)
+    if not np.allclose(lp[ok], lm[ok], rtol=1e-9, atol=1e-9):
+        fails.append(("large parameters: log probability != log of the hidden marginal", float(np.nanmax(np.abs(lp[ok] - lm[ok])))))
+    if cfg["kind"] == "complex":
+        lmp = log_marginal(C.np_params(st.rbm_ph))
+        ph = st.phase(space).numpy()
+        if not np.all(np.isfinite(ph)) or not np.allclose(ph, 0.5 * lmp, rtol=1e-9, atol=1e-9):
+            fails.append(("large parameters: phase != -E_mu/2", float(np.nanmax(np.abs(ph - 0.5 * lmp)))))
+    return fails
+
+
 def bounded(tier, seed):
     n = 0
     bad = []
@@ -71,6 +112,11 @@ def bounded(tier, seed):
                 n += 1
                 if f:
                     bad.append(({"kind": kind, "nv": nv, "nh": nh, "seed": s, "scale": scale}, f[:2]))
-    return {"driver": "drivers/C01.native_check", "label": "bounded", "evaluations": n, "failures": len(bad),
-            "bound": "float64, %d architectures x 3 random parameter draws (non-zero biases, gaussian scale 1, 3, 6/size)" % len(archs),
+            for s in (seed, seed + 7):
+                f = large_regime({"kind": kind, "nv": nv, "nh": nh}, s)
+                n += 1
+                if f:
+                    bad.append(({"kind": kind, "nv": nv, "nh": nh, "seed": s, "regime": "magnitudes up to 30"}, f[:2]))
+    return {"driver": "drivers/C01.native_check + large_regime", "label": "bounded", "evaluations": n, "failures": len(bad),
+            "bound": "float64, %d architectures x 3 random parameter draws (non-zero biases, gaussian scale 1, 3, 6/size) and 2 draws with magnitudes up to 30 compared in the log domain" % len(archs),
             "first_failures": bad[:2]}
